@@ -102,7 +102,7 @@ func formatDescriptor(p *Prog) map[string]interface{} {
 		d["filename"] = names
 	}
 	// directory name: which functions build it
-	d["dirname.readers_of_LowercaseNames"] = readersOfGlobal(p, "LowercaseNames")
+	d["dirname.number_of_readers_of_LowercaseNames"] = len(readersOfGlobal(p, "LowercaseNames"))
 	// object encoding: the bytes handed to the object writer come straight from json.Marshal(object)
 	enc := []string{}
 	for _, fn := range p.Funcs {
